@@ -17,6 +17,7 @@ DIMENSIONS = ["coordinates", "bond_types", "bond_keywords", "charges", "resonanc
 
 SPEC = {
     "level": "exploration",
+    "level_text": 'Exploration: paired renderings of one abstract molecule (17 varied non-identity dimensions incl. V2000 encodings, headers, trailing records, CRLF) through the real reader->canonicalize->serialize path must agree byte for byte with the reference rendering; identity data are held fixed by construction.',
     "technique": "paired-rendering trace checker over real reader->canonicalize->serialize executions (identity data fixed, non-identity data varied by an independent renderer)",
     "rule": ("cases: base molecules (M2, M3, M4, M5, corpus-like sizes) x one rendering per varied dimension: " + ", ".join(DIMENSIONS) +
              ". distinct_nontrivial = distinct (molecule, dimension) pairs whose rendering text differs from the reference rendering"),
